@@ -1,5 +1,7 @@
 import Ledger.Proofs.SchedLocks
+import Ledger.Proofs.SchedGuarded
 import Ledger.Proofs.SchedHandles
+import Ledger.Proofs.SchedWitnesses
 
 /-!
 # C15 (schedule part) — a transaction is reverted at most once
@@ -9,10 +11,11 @@ under row locks: a concurrent revert waits for the in-progress one and then
 re-evaluates `reverted_at IS NULL` on the latest committed version (EvalPlanQual).
 Proved: the step-level facts for every world (`revert_update_*`) — in particular that
 a successful update needs an un-reverted latest version and takes the row for the rest
-of the transaction — and `epq_sees_latest` for this statement. The counterexample shows
-what the `reverted_at IS NULL` conjunct is for. The all-schedules statement
-`revert_at_most_once_any_schedule` is NOT proved yet (kernel-evaluated examples + the
-`revert2` correspondence workload).
+of the transaction — and `epq_sees_latest` for this statement; and, over ALL schedules,
+`revert_at_most_once_any_schedule`: for programs that only issue the guarded UPDATE (the
+real writers do: `writers_are_guarded`, and the regenerated statement classification ties
+that to the code) a transaction has at most one successful revert, in progress or
+committed. The counterexample shows what the `reverted_at IS NULL` conjunct is for.
 -/
 namespace Ledger.C15s
 open Ledger.Sched
@@ -53,6 +56,25 @@ theorem revert_update_modifies_only_unreverted (w w' : World) (s : Sid) (l tx : 
           refine ⟨hlat', hheld, ?_, ?_⟩ <;> simp
         · cases h; cases hmod
 
+/-- `revert_at_most_once_any_schedule`: for every schedule and every guarded programs, each
+    transaction has at most one revert UPDATE that answered `modified` and was not rolled back —
+    committed or still in progress. -/
+theorem revert_at_most_once_any_schedule (σ : Schedule) (w₀ : World) (hg : AllGuarded w₀) (h₀ : RevInv w₀)
+    (l tx : Nat) :
+    ((run σ w₀).revWins.filter (fun e => e.l = l && e.tx = tx)).length ≤ 1 :=
+  (revInv_run σ w₀ hg h₀).1.once l tx
+
+/-- and the committed flag it leaves is the reverted one, owned by nobody -/
+theorem committed_revert_is_final (σ : Schedule) (w₀ : World) (hg : AllGuarded w₀) (h₀ : RevInv w₀)
+    (e : RevWin) (he : e ∈ (run σ w₀).revWins) (hc : e.com = true) :
+    ((run σ w₀).rev e.l e.tx).com = some true ∧ ((run σ w₀).rev e.l e.tx).own = none :=
+  (revInv_run σ w₀ hg h₀).1.done_ e he hc
+
+/-- the real writers' programs are guarded (for any request, ledger state and result of any statement) -/
+theorem writers_are_guarded (q : Revert) (hq : q.guarded = true) (p : Send) (inUse : Bool) :
+    Guarded (revertProg q inUse) ∧ Guarded (sendProg p inUse) :=
+  ⟨guarded_revertProg q hq inUse, guarded_sendProg p inUse⟩
+
 /-- tie (regenerated): the real revert path issues the guarded UPDATE (a statement without
     `reverted_at is null` is classified `revertUpdateUnguarded`) first, then locks the balances -/
 theorem revert_path_follows_generated_handles :
@@ -64,19 +86,8 @@ theorem revert_path_follows_generated_handles :
 
 /-! ## examples (tests) and the counterexample for the unguarded UPDATE -/
 
-/-- transaction 1 (10 from pair 1 = world to pair 2) is committed; two sessions revert it -/
-def exRev (guarded : Bool) : Revert :=
-  { l := 1, sync := false, tx := 1, src := 1, dst := 2, amt := 10, force := true, guarded := guarded }
 
-def exWorld (guarded : Bool) : World :=
-  { txs := [{ l := 1, id := 1, ref := 0, by_ := 9, com := true }]
-    txSeq := fun l => if l = 1 then 1 else 0
-    rev := fun l t => if l = 1 ∧ t = 1 then { com := some false } else {}
-    vols := fun k => if k = 2 then { com := some 10 } else if k = 1 then { com := some (-10) } else {}
-    sess := fun s => if s = 1 ∨ s = 2 then { prog := revertProg (exRev guarded) true } else {} }
 
-/-- A: BEGIN, UPDATE (modified) · B: BEGIN, UPDATE (waits) · A: …COMMIT · B: UPDATE re-evaluated → not modified -/
-def exSchedule : Schedule := [1, 1, 2, 2, 1, 1, 1, 1, 1, 2, 2]
 
 example :
     (run exSchedule (exWorld true)).resp 1 = some { tx := 2, log := 1 } ∧
@@ -84,6 +95,16 @@ example :
     (run exSchedule (exWorld true)).revWins.length = 1 ∧
     ((run exSchedule (exWorld true)).vols 2).com = some 0 := by
   decide
+
+/-- the hypotheses of `revert_at_most_once_any_schedule` hold for the example world -/
+example : AllGuarded (exWorld true) ∧ RevInv (exWorld true) := by
+  constructor
+  · intro s
+    simp only [exWorld]
+    split
+    · exact guarded_revertProg _ rfl true
+    · trivial
+  · refine ⟨fun _ _ => Nat.zero_le _, ?_, ?_, ?_⟩ <;> (intro e he; cases he)
 
 /-- Without `reverted_at IS NULL` the second UPDATE succeeds after the wait: two revert transactions. -/
 theorem unguarded_revert_counterexample :
